@@ -9,6 +9,22 @@ CHECKS = {
    text="Coq theorems over the faithful model of log2/sizesToSegments/suggestCompactionSegment for ALL size vectors (valid range, none-iff, progress, every merged table moves up a size class) and for all N (depth <= log2 N + 1 under measured size hypotheses; additive cost <= N log2 N); model tied to the code on every run by exhaustive short vectors + random vectors + real single-writer workloads (chooser input -> range actually compacted), depth/cost monitored through the public Add",
    design="5/C17", technique="Coq proof (induction over the size vector / over N) + extracted-model differential tie",
    note="depth/cost clauses are proved under hypotheses on the merged table's byte size that the check measures rather than derives; uint64 wrap of size sums not modelled; tie = differential testing"),
+ "C03": dict(
+   text="Coq theorems: the array heap + merged iterator exactly as coded (sift-up/sift-down over a slice, pqLess tie-break, same-key dropping, deletion suppression) equals the newest-table-wins overlay for ALL stacks of sorted tables and ALL seek keys, generic in the record type (refs and logs); tied on every run to NewMerged/Merged over real tables (scans, seeks, RefsFor, raw and suppressing view)",
+   design="5/C03", technique="Coq proof (heap invariant + merge invariant by induction on remaining records) + extracted-model differential tie",
+   note="per-table seek is the model reader's (C02); Go runtime, slices and interfaces modelled as lists; tie = differential testing with generated stacks"),
+ "C07": dict(
+   text="Coq theorems at the level of decoded tables: compacting ANY contiguous range (and any sequence of such compactions) leaves the stack's ref view and reflog view identical; tombstones survive unless the range starts at the bottom; result ranges stay increasing. Tied on every run: real Stack histories (Add, auto-compaction, compactRange of arbitrary ranges, CompactAll) vs the composed model (byte-exact model writer + model reader + compact_range + suggest); view-level oracle on the implementation's own observations",
+   design="5/C07", technique="Coq proof (overlay algebra via lookup extensionality) + extracted-model differential tie on stack histories",
+   note="theorem is over decoded tables; write/read-back of the merged records rests on the C01 tie/theorems; single handle (interleavings are C04)"),
+ "C12": dict(
+   text="Coq theorems: the validator as coded (sort.SearchStrings, prefix scan skipping deleted names, parent walk) accepts a transaction IFF the resulting set of live names is conflict-free, for all views and transactions; invariant over all histories; delete-a-and-create-a/b accepted; tied on every run through Stack.Add over a conflict-rich 14-name alphabet, with the extracted conflict_free_b as oracle",
+   design="5/C12", technique="Coq proof (sound+complete validator, invariant by induction over histories) + extracted-model differential tie",
+   note="multi-table Additions: each table is validated against the view before the Addition (C12_addition_pinned_refuted is the regression statement; see known_findings S5); linear scan in place of binary search on ascending input"),
+ "C13": dict(
+   text="Coq theorems: CompactAll with an expiry configuration yields exactly filter keep_log of the previous reflog view with refs untouched, for all stacks and all configurations; keep_log is proved equivalent to the documented rule (time strictly older / index outside window; 0 = unset). Tied on every run: real CompactAll(expiry) on histories vs the composed model, oracle computed from the implementation's own before/after views",
+   design="5/C13", technique="Coq proof (corollary of the compaction algebra) + extracted-model differential tie",
+   note="as C07"),
 }
 
 NA_REASON = "not built yet in this round (see DESIGN.md section 7 for the order of work); no check is registered, nothing is claimed"
